@@ -29,7 +29,7 @@ type params struct {
 }
 
 func Run(k *report.Check) {
-	k.Rule = "operator tier (scheduler build, default schedule): a real Operator with event batch size 1 or 3 (t: 1-3; time-out 10 ms), 90-byte (t: also default) memtables, is fed every script up to the depth over {event whose handler result puts / deletes entry m of namespace n or the empty entry key of namespace nm (the two concatenate to the same bytes) (values distinct per step, sometimes empty) of key a or ab; the batch time-out passes; checkpoint at a barrier and a new operator deployed from it}; on every ProcessEventBatch the state supplied for each key must equal what the handler's own earlier mutations leave; every script ends with a checkpoint, a restore and three more events (key a, key ab, key a again: one batch when the batch size is 3). store tier: every sequence up to the depth of put/delete mutations over subject keys {a, aff, a00, \"\", ab} (prefixes of one another, empty), namespaces {n, nm, \"\"}, entry keys {\"\", k, k00}, values distinct per step and an empty value, applied through the real KeyedStateStore over a real dkv.DB with tiny thresholds (memtable of 2 entries, L0 trigger 1-2) and background flush/compaction completed or held back at every step; after every mutation GetState of every subject key is compared with a shadow map[subject][namespace][entry]. store-grouped part: the same over two subject keys with the mutations handed to ApplyMutations three at a time (one call per run of equal subject keys, grouped by namespace, entry keys k, j, k00 by position in the group), compared after every group. non-trivial = distinct (options, shadow contents) reached after an overwrite or delete of an entry that an older memtable or table still holds"
+	k.Rule = "operator tier (scheduler build, default schedule): a real Operator with event batch size 1 or 3 (t: 1-3; time-out 10 ms), 90-byte (t: also default) memtables, is fed every script up to the depth over {event whose handler result puts / deletes entry m of namespace n or the empty entry key of namespace nm (the two concatenate to the same bytes) (values distinct per step, sometimes empty) of key a or ab; the batch time-out passes; checkpoint at a barrier and a new operator deployed from it}; the handler answers with one key result per key or - as the repository's own handlers do - one per event; on every ProcessEventBatch the state supplied for each key must equal what the handler's own earlier mutations leave; every script ends with a checkpoint, a restore and three more events (key a, key ab, key a again: one batch when the batch size is 3). store tier: every sequence up to the depth of put/delete mutations over subject keys {a, aff, a00, \"\", ab} (prefixes of one another, empty), namespaces {n, nm, \"\"}, entry keys {\"\", k, k00}, values distinct per step and an empty value, applied through the real KeyedStateStore over a real dkv.DB with tiny thresholds (memtable of 2 entries, L0 trigger 1-2) and background flush/compaction completed or held back at every step; after every mutation GetState of every subject key is compared with a shadow map[subject][namespace][entry]. store-grouped part: the same over two subject keys with the mutations handed to ApplyMutations three at a time (one call per run of equal subject keys, grouped by namespace, entry keys k, j, k00 by position in the group), compared after every group. non-trivial = distinct (options, shadow contents) reached after an overwrite or delete of an entry that an older memtable or table still holds"
 	k.Assumptions = []string{"namespaces shorter than 256 bytes (the store length-prefixes them with one byte)", "order of namespaces and entries within GetState is not part of the property; grouping is"}
 	k.Budget(160, 1200)
 	p := params{depth: k.Pick(4, 5), nsub: k.Pick(3, 4), nns: k.Pick(2, 3), keyGroups: 4,
